@@ -618,6 +618,226 @@ def run_recv(chk, rig, scs, label):
             chk.violation(sig, what, sc)
 
 
+# ---------------------------------------------------------------- receive-queue ids (shared with C18)
+def _rxq_bundle(idx, n):
+    ''' a self-delimiting CBOR array that is different for every idx '''
+    body = bytes(((idx * 31 + i * 7) % 251) + 1 for i in range(n))
+    return b'\x9f' + cb_head(0, idx) + cb_head(2, len(body)) + body + b'\xff'
+
+
+def _rxq_phase(rng, first_idx, n, peers, pack, with_xfers, pop, order):
+    ''' n bundles (whole ones, or transfers of 2-3 segments) from `peers`, packed into datagrams '''
+    per_peer = {}
+    seq = []
+    for i in range(n):
+        idx = first_idx + i
+        peer = peers[i % len(peers)]
+        data = _rxq_bundle(idx, 3 + (idx * 5) % 40)
+        if with_xfers and i % 2 == 1:
+            parts = split_parts(rng, data, rng.choice([2, 3]))
+            msgs = [['seg', 1000 + idx, len(data), off, ch.hex()] for (off, ch) in parts]
+        else:
+            msgs = [['bundle', data.hex()]]
+        for m in msgs:
+            seq.append((peer, m))
+    dgrams = []
+    if pack == 'each':
+        groups = [[x] for x in seq]
+    elif pack == 'one':
+        groups = [[x for x in seq if x[0] == pr] for pr in peers]
+    else:
+        groups, i = [], 0
+        while i < len(seq):
+            k = rng.randrange(1, 4)
+            g = [seq[i]]
+            while len(g) < k and i + len(g) < len(seq) and seq[i + len(g)][0] == g[0][0]:
+                g.append(seq[i + len(g)])
+            groups.append(g)
+            i += len(g)
+    for g in groups:
+        if not g:
+            continue
+        raw = b''
+        for (_pr, m) in g:
+            raw += bytes.fromhex(m[1]) if m[0] == 'bundle' else enc_transfer(m[1], m[2], m[3], bytes.fromhex(m[4]))
+        dgrams.append({'addr': g[0][0][0], 'port': g[0][0][1], 'hex': raw.hex(), 'msgs': [m for (_pr, m) in g]})
+    return {'dgrams': dgrams, 'pop': pop, 'order': order, 'send': 1}
+
+
+def rx_queue_histories(rng, tier):
+    hs = []
+    for n in (2, 3, 11):
+        for peers in ([PEERS[0]], [PEERS[0], PEERS[1]]):
+            for pack in ('one', 'each'):
+                hs.append({'kind': 'rxq', 'phases': [_rxq_phase(rng, 0, n, peers, pack, n == 3, 'all', 'listed')]})
+    # pop some, receive more, pop all, receive again after the queue ran empty
+    for peers in ([PEERS[0]], [PEERS[0], PEERS[2]]):
+        hs.append({'kind': 'rxq', 'phases': [
+            _rxq_phase(rng, 0, 3, peers, 'one', False, 'half', 'listed'),
+            _rxq_phase(rng, 3, 3, peers, 'each', True, 'all', 'reversed'),
+            _rxq_phase(rng, 6, 2, peers, 'one', False, 'all', 'listed')]})
+    for _ in range(150 if tier == 'thorough' else 12):
+        phases, idx = [], 0
+        for _ph in range(rng.randrange(1, 4)):
+            n = rng.choice([2, 2, 3, 5, 11])
+            phases.append(_rxq_phase(rng, idx, n, rng.choice([[PEERS[0]], [PEERS[0], PEERS[1]], list(PEERS)]),
+                                     rng.choice(['one', 'each', 'mixed']), rng.random() < 0.5,
+                                     rng.choice(['none', 'half', 'all']), rng.choice(['listed', 'reversed', 'shuffled'])))
+            idx += n
+        phases[-1]['pop'] = 'all'
+        hs.append({'kind': 'rxq', 'phases': phases})
+    return hs
+
+
+def run_rx_queue_history(rig, hist, rng):
+    ''' drive one history on a real Agent → (trace for the model, [(short signature, what)]) '''
+    ag = rig.agent(None)
+    ref = Ref()
+    bad, trace = [], []
+    announced = []        # (bid string, peer, data) in announcement order, from signals × reference
+    popped = []
+    tx_ids = []
+    nsig = 0
+
+    def note(sig, what):
+        if not any(b[0] == sig for b in bad):
+            bad.append((sig, what))
+
+    def signals():
+        return [args for (_p, name, _s, args) in ag._verif_signals if name == 'recv_bundle_finished']
+
+    for phase in hist['phases']:
+        for d in phase['dgrams']:
+            conv = rig.ua.Conversation(family=socket.AF_INET, peer_address=ipaddress.ip_address(d['addr']), peer_port=d['port'])
+            try:
+                ag._recv_datagram(None, bytes.fromhex(d['hex']), conv)
+                oc = 'done'
+            except Exception as err:   # noqa
+                oc = 'raised:' + type(err).__name__
+                note('rx-exception', '_recv_datagram raised %s on a well-formed datagram' % type(err).__name__)
+            for m in d['msgs']:
+                if m[0] == 'bundle':
+                    ref.bundle((d['addr'], d['port']), bytes.fromhex(m[1]))
+                else:
+                    ref.seg((d['addr'], d['port']), m[1], m[2], m[3], bytes.fromhex(m[4]))
+            sg = signals()
+            if len(sg) != len(ref.queue):
+                note('rx-queue-mismatch', '%d recv_bundle_finished signals for %d complete bundles' % (len(sg), len(ref.queue)))
+            for k in range(nsig, min(len(sg), len(ref.queue))):
+                bid, length, meta = str(sg[k][0]), int(sg[k][1]), dict(sg[k][2])
+                peer, data = ref.queue[k]
+                if length != len(data) or meta.get('address') != peer[0] or meta.get('port') != peer[1]:
+                    note('rx-signal-wrong', 'bundle %d announced as (%s, %d, %s), expected length %d from %s' % (k, bid, length, meta, len(data), peer))
+                if bid in [a[0] for a in announced]:
+                    note('rx-id-reused', 'recv_bundle_finished announced id %r for bundle %d; the same id was announced for bundle %d'
+                         % (bid, k, [a[0] for a in announced].index(bid)))
+                announced.append((bid, peer, data))
+            nsig = len(sg)
+            listed = [str(x) for x in ag.recv_bundle_get_queue()]
+            trace.append({'addr': d['addr'], 'port': d['port'], 'hex': d['hex'], 'outcome': oc, 'queue': listed})
+            want = [a[0] for a in announced if a[0] not in popped]
+            if listed != want:
+                note('rx-queue-mismatch', 'recv_bundle_get_queue() = %s, announced and not yet popped = %s' % (listed, want))
+        for _i in range(phase.get('send', 0)):
+            try:
+                tx_ids.append(str(ag.send_bundle_data([1, 2, 3], {'address': '10.0.0.9'})))
+            except Exception as err:   # noqa
+                note('tx-exception', 'send_bundle_data raised %s' % type(err).__name__)
+        if phase['pop'] == 'none':
+            continue
+        listed = [str(x) for x in ag.recv_bundle_get_queue()]
+        todo = list(listed)
+        if phase['order'] == 'reversed':
+            todo.reverse()
+        elif phase['order'] == 'shuffled':
+            rng.shuffle(todo)
+        if phase['pop'] == 'half':
+            todo = todo[::2]
+        for bid in todo:
+            exp = [a for a in announced if a[0] == bid]
+            try:
+                got = bytes(ag.recv_bundle_pop_data(bid))
+                trace.append({'pop': bid, 'result': got.hex()})
+                if not exp:
+                    note('rx-queue-mismatch', 'the queue listed id %r that was never announced' % bid)
+                elif got != exp[-1][2] if len(exp) == 1 else got not in [a[2] for a in exp]:
+                    note('pop-returns-other-transfer', 'recv_bundle_pop_data(%r) returned %d octets that are not the bundle announced under that id' % (bid, len(got)))
+                elif len(exp) > 1 and got != exp[0][2]:
+                    note('pop-returns-other-transfer', 'recv_bundle_pop_data(%r) returned the bundle announced %d announcements later under the same id '
+                         '(the earlier one is lost)' % (bid, [a[2] for a in exp].index(got)))
+            except Exception as err:   # noqa
+                trace.append({'pop': bid, 'result': 'KeyError' if isinstance(err, KeyError) else 'raised:' + type(err).__name__})
+                note('rx-pop-fails', 'recv_bundle_pop_data(%r) raised %s although the queue listed that id' % (bid, type(err).__name__))
+            popped.append(bid)
+        for bid in todo:           # a second pop of the same id must fail
+            try:
+                got = bytes(ag.recv_bundle_pop_data(bid))
+                trace.append({'pop': bid, 'result': got.hex()})
+                note('rx-second-pop-succeeds', 'a second recv_bundle_pop_data(%r) returned %d octets' % (bid, len(got)))
+            except KeyError:
+                trace.append({'pop': bid, 'result': 'KeyError'})
+            except Exception as err:   # noqa
+                trace.append({'pop': bid, 'result': 'raised:' + type(err).__name__})
+        listed = [str(x) for x in ag.recv_bundle_get_queue()]
+        want = [a[0] for a in announced if a[0] not in popped]
+        if listed != want:
+            note('rx-queue-mismatch', 'after popping: recv_bundle_get_queue() = %s, announced and not yet popped = %s' % (listed, want))
+    lost = [k for k, a in enumerate(announced) if a[0] not in popped]
+    if lost and hist['phases'][-1]['pop'] == 'all':
+        note('rx-queue-mismatch', 'announced bundles %s were never offered for popping' % lost[:5])
+    if len(set(tx_ids)) != len(tx_ids):
+        note('tx-id-reused', 'send_bundle_data returned ids %s' % tx_ids)
+    return trace, bad
+
+
+def rx_queue_cases(chk, rng, tier, prefix):
+    ''' Histories in which several received bundles stay unpopped (2, 3, 11; one peer and two; one datagram and
+    several; whole bundles and reassembled transfers), then the queue is read and every listed id popped — twice.
+    Monitors: announced ids pairwise distinct, queue == announced and not yet popped, each pop returns the bundle
+    announced under that id, a second pop fails. Returns [(signature, what, replay)] with `prefix`-ed signatures;
+    for prefix 'C13' the histories also go through the Lean model (`udpcl.hist`). '''
+    rig = Rig()
+    out, reqs, traces = [], [], []
+    for hist in rx_queue_histories(rng, tier):
+        trace, bad = run_rx_queue_history(rig, hist, rng)
+        nb = sum(len(d['msgs']) for ph in hist['phases'] for d in ph['dgrams'])
+        chk.case({'rxq': [[len(ph['dgrams']), ph['pop'], ph['order']] for ph in hist['phases']], 'n': nb}, nontrivial=True,
+                 sample=len(hist['phases']) > 1)
+        chk.cov['traces_validated_against_impl'] += 1
+        chk.count('rxq:histories')
+        chk.count('rxq:pops', sum(1 for t in trace if 'pop' in t))
+        for (sig, what) in bad:
+            out.append(('%s:%s' % (prefix, sig), what, hist))
+        if prefix == 'C13':
+            ops = []
+            okay = True
+            for t in trace:
+                if 'pop' in t:
+                    if not t['pop'].isdigit():
+                        okay = False
+                        break
+                    ops.append({'pop': int(t['pop'])})
+                else:
+                    ops.append({'addr': t['addr'], 'port': t['port'], 'hex': t['hex']})
+            if okay:
+                reqs.append({'op': 'udpcl.hist', 'ops': ops})
+                traces.append((hist, trace))
+            else:
+                chk.corr_break('the queue listed an id that is not a decimal number', hist)
+    if reqs:
+        for (hist, trace), ans in zip(traces, chk.driver(reqs)):
+            res = ans.get('results', [])
+            for t, r in zip(trace, res):
+                if 'pop' in t:
+                    same = r.get('pop') == t['result']
+                else:
+                    same = (r.get('outcome') == 'done') == (t['outcome'] == 'done') and [str(x) for x in r.get('queue', [])] == t['queue']
+                if not same:
+                    chk.corr_break('receive-queue history differs at %s: model %s' % (json.dumps(t)[:200], json.dumps(r)[:200]), hist)
+                    break
+    return out
+
+
 # ---------------------------------------------------------------- range codec
 def run_ranges(chk, rig):
     import portion
@@ -660,7 +880,8 @@ def run(chk):
                        'remain_size -2..3 and around len==mtu, plus random; recv: all permutations (thorough) or random '
                        'orders (quick) of <=6 segments with/without duplicates, the sender\'s own segments shuffled, 2-3 '
                        'interleaved transfers/peers composed into datagrams with padding and whole bundles, and a malformed '
-                       'stream (first-octet dispatch, truncation, total mismatch, require_tls); range codec random')
+                       'stream (first-octet dispatch, truncation, total mismatch, require_tls); range codec random; '
+                       'receive-queue histories with 2, 3, 11 unpopped bundles (1-3 peers, one/several datagrams, partial pops, double pops)')
     chk.assumptions += [
         'transfer ids, totals, offsets are CBOR unsigned integers < 2^64; extension keys 3..8 (STARTTLS, SENDER_LISTEN, PMTUD, ECN) are outside the model and never generated',
         'portion stub: union of closed-open integer ranges equals closedopen(0,n) iff every index is covered and nothing lies beyond n',
@@ -671,6 +892,8 @@ def run(chk):
     run_recv(chk, rig, recv_scenarios(chk, rig), 'reasm')
     run_recv(chk, rig, malformed_scenarios(chk), 'dispatch')
     run_ranges(chk, rig)
+    for (sig, what, rep) in rx_queue_cases(chk, chk.rng, chk.tier, 'C13'):
+        chk.violation(sig, what, rep)
 
 
 def replay(chk, path):
@@ -707,5 +930,12 @@ def replay(chk, path):
         for sig, what in viol:
             print('MONITOR %s: %s' % (sig, what))
         return 1 if viol else 0
+    if rep.get('kind') == 'rxq':
+        trace, bad = run_rx_queue_history(rig, rep, chk.rng)
+        for t in trace:
+            print(json.dumps(t)[:300])
+        for sig, what in bad:
+            print('MONITOR %s: %s' % (sig, what))
+        return 1 if bad else 0
     print('unknown replay kind')
     return 2
